@@ -54,8 +54,19 @@ func findPool(c *Check, rule string) *poolInfo {
 			n++
 		}
 	}
-	if n != 1 {
-		c.Unknown(rule, "anchor/pool-task-invocation", fmt.Sprintf("anchor-unresolved: expected exactly one invocation of job.task, found %d", n), "-")
+	if n == 0 {
+		c.Unknown(rule, "anchor/pool-task-invocation", "anchor-unresolved: no invocation of job.task found", "-")
+		return nil
+	}
+	if n > 1 {
+		var where []string
+		for _, s := range c.G.Sites {
+			cc := s.Common()
+			if !cc.IsInvoke() && cc.StaticCallee() == nil && (isLoadOfField(cc.Value, taskKey) || isFieldOf(cc.Value, taskKey)) {
+				where = append(where, c.P.InstrPos(s)+" in "+c.P.FuncName(s.Parent()))
+			}
+		}
+		c.Bad(rule, "tasks-run-only-on-workers", fmt.Sprintf("a pool task is invoked at %d sites (%s): besides the worker loop, tasks can run on other goroutines, so more than num_workers commands can run at once", n, strings.Join(where, "; ")), "-")
 		return nil
 	}
 	p.New = anchor(c, rule, "worker", "", "NewTaskWorkerPool")
